@@ -20,6 +20,9 @@ func genC03(t *rapid.T) *Case {
 		{"font", 4}, {"a", 8}, {"ajs1", 9}, {"ajsn", 8}, {"br", 4}, {"brbr", 5}, {"nest", 4}, {"hid", 2}}
 	p.Top = append(append([]wc{}, p.Top...), wc{"para", 20}, wc{"list", 6}, wc{"quote", 5}, wc{"ltable", 4}, wc{"dtable", 3})
 	p.Core = append(append([]wc{}, p.Core...), wc{"para", 20}, wc{"list", 6}, wc{"quote", 5}, wc{"ltable", 4}, wc{"dtable", 3})
+	p.LessThanInCaptions = true
+	p.Top = append(p.Top, wc{"figure", 8})
+	p.Core = append(p.Core, wc{"figure", 8})
 	g := newG(t, p)
 	c := &Case{Property: "C03", HTML: g.page()}
 	c.Opts = genOpts(t, 30)
